@@ -106,6 +106,9 @@ class Units:
             n = callee_name(t) or ""
             if BYTE_CALLS.search(n):
                 return ("byte",)
+            if re.search(r"::unwrap_or$|::unwrap_or_else$|::map_or$", n) and len(t["args"]) >= 2:
+                # either the payload or the fallback: an `add` node carries the union of both units (constants add nothing)
+                return ("add", self.expr(b, t["args"][0], depth + 1), self.expr(b, t["args"][1], depth + 1))
             if re.search(r"::into$|::from$|::try_into$|::unwrap$|::clone$|Try>::branch$|::min$|::max$", n) and t["args"]:
                 return self.expr(b, t["args"][0], depth + 1)
             return ("call", n)
@@ -211,6 +214,26 @@ class Units:
                     bounds.append(("at", e, self._units_of_expr(e, f)))
                 out.append((f, b, bi, bounds))
         return out
+
+
+CHAR_COUNT = re.compile(r"Iterator>?::(nth|skip|take|step_by|advance_by)$")
+
+
+def char_count_sites(U):
+    """[(fn, body, bb, expr, units)]: a number handed to nth / skip / take of a character iterator counts characters"""
+    out = []
+    for f in U.fns:
+        b = Body(f)
+        for bi, t in b.calls():
+            n = callee_name(t) or ""
+            if not CHAR_COUNT.search(n) or len(t["args"]) < 2:
+                continue
+            rty = b.local_ty(op_place(t["args"][0])["l"])["s"] if op_place(t["args"][0]) is not None else ""
+            if not re.search(r"str::Chars<|str::CharIndices<|Peekable<std::str::Chars|Enumerate<std::str::Chars", rty) and "Chars" not in n:
+                continue
+            e = U.expr(b, t["args"][1])
+            out.append((f, b, bi, e, U._units_of_expr(e, f)))
+    return out
 
 
 def fmt_expr(e):
